@@ -14,7 +14,9 @@
    Each task is a unit in staged[w].  Property: every task is eventually run although its owner sleeps
    (Drains), nothing is run twice or invented (Conserved).
    Variant "threshold_full" (seeded change C19-3): the threshold is max_idle_loop_count itself; the
-   bottom-of-loop reset then keeps the condition false for ever and Drains fails.                    *)
+   bottom-of-loop reset then keeps the condition false for ever and Drains fails.
+   Variant "steal_when_disabled" (seeded change C10-3): staged work of other workers is taken over although the
+   policy does not steal; NoMigration fails.                                                         *)
 EXTENDS Naturals, FiniteSets
 CONSTANTS Worker, Asleep, MaxIdle, PerSleeper, Stealing, Variant
 VARIABLES staged, idle, ran
@@ -35,7 +37,7 @@ RunOwn(w) == /\ w \in Awake /\ staged[w] > 0
 \* one idle iteration; ess was evaluated at the top, i.e. on the counter before the increment
 IdleIter(w) ==
     /\ w \in Awake /\ staged[w] = 0
-    /\ LET ess == Stealing /\ idle[w] > Threshold IN
+    /\ LET ess == (Stealing \/ Variant = "steal_when_disabled") /\ idle[w] > Threshold IN
        /\ \/ /\ ess /\ \E v \in Worker \ {w} : staged[v] > 0
                         /\ staged' = [staged EXCEPT ![v] = @ - 1, ![w] = @ + 1]
           \/ /\ ~(ess /\ \E v \in Worker \ {w} : staged[v] > 0) /\ UNCHANGED staged
@@ -55,4 +57,6 @@ Conserved == LET Sum[S \in SUBSET Worker] == IF S = {} THEN 0 ELSE LET x == CHOO
 Drains == (Stealing /\ Awake # {}) => <>(ran = Total)
 \* without stealing nothing leaves a sleeping worker's queue (the property then allows the wait for resume)
 StaysPut == [][\A w \in Asleep : ~Stealing => staged'[w] = staged[w]]_vars
+\* C10: in a pool whose policy does not steal, no task ever arrives in a queue it was not sent to
+NoMigration == [][~Stealing => \A w \in Worker : staged'[w] <= staged[w]]_vars
 =============================================================================
